@@ -1,6 +1,7 @@
 package props
 
 import (
+	"bytes"
 	"context"
 	"crypto/tls"
 	"fmt"
@@ -99,6 +100,57 @@ func (c chunkRT) RoundTrip(r *http.Request) (*http.Response, error) {
 func (c *Carrier) Chunked() *Carrier {
 	c.Name += "-chunked"
 	c.CC = &httpgrpc.Channel{Transport: chunkRT{c.Transport}, BaseURL: c.URL}
+	return c
+}
+
+// prefaceCutReader passes the first frame of a streaming request body through, then the 4-byte size preface of
+// the second frame, and then ends cleanly (io.EOF): the connection went away right there.
+type prefaceCutReader struct {
+	rc   io.ReadCloser
+	left int // bytes still to pass through; -1 = not yet known
+	hdr  []byte
+}
+
+func (p *prefaceCutReader) Read(b []byte) (int, error) {
+	if p.left == 0 {
+		return 0, io.EOF
+	}
+	if p.left < 0 {
+		// read the first preface to learn the first frame's length
+		for len(p.hdr) < 4 {
+			t := make([]byte, 4-len(p.hdr))
+			n, err := p.rc.Read(t)
+			p.hdr = append(p.hdr, t[:n]...)
+			if err != nil && len(p.hdr) < 4 {
+				return 0, err
+			}
+		}
+		sz := int(int32(uint32(p.hdr[0])<<24 | uint32(p.hdr[1])<<16 | uint32(p.hdr[2])<<8 | uint32(p.hdr[3])))
+		if sz < 0 {
+			sz = 0
+		}
+		p.left = sz + 4 // rest of frame one, preface of frame two
+		n := copy(b, p.hdr)
+		if n < 4 {
+			p.left += 4 - n // (tiny buffers: hand the rest of the header out with the data)
+			p.rc = io.NopCloser(io.MultiReader(bytes.NewReader(p.hdr[n:]), p.rc))
+		}
+		return n, nil
+	}
+	if len(b) > p.left {
+		b = b[:p.left]
+	}
+	n, err := p.rc.Read(b)
+	p.left -= n
+	return n, err
+}
+func (p *prefaceCutReader) Close() error { return p.rc.Close() }
+
+// CutAfterSecondPreface makes the server see every streaming request body end cleanly right after the size
+// preface of its second frame.
+func (c *Carrier) CutAfterSecondPreface() *Carrier {
+	c.Name += "-cut-after-2nd-preface"
+	c.ReqBodyWrap = func(b io.ReadCloser) io.ReadCloser { return &prefaceCutReader{rc: b, left: -1} }
 	return c
 }
 
